@@ -168,6 +168,9 @@ func (api *API) mapDecodeBasedOnType(ctx context.Context, mapVal any, value refl
 				if ts.ObjectType() == nil || !isMap {
 					return ierrors.Errorf("non string value in map when decoding a byte array, got %T instead", mapVal)
 				}
+				if err := checkMapObjectCode(m, ts.ObjectType()); err != nil {
+					return ierrors.Wrap(err, "failed to read byte array from map")
+				}
 				fieldKey := keyDefaultSliceArray
 				if ts.fieldKey != nil {
 					fieldKey = *ts.fieldKey
@@ -371,6 +374,24 @@ func (api *API) mapDecodeInterface(
 	return nil
 }
 
+// checkMapObjectCode verifies that the "type" entry of the object m is the code of objectType,
+// like mapDecodeStruct does for a struct with an object type.
+func checkMapObjectCode(m map[string]any, objectType any) error {
+	_, objectCode, err := getTypeDenotationAndCode(objectType)
+	if err != nil {
+		return ierrors.WithStack(err)
+	}
+	mapObjectCode, has := m[keyType]
+	if !has {
+		return ierrors.Errorf("missing type key in map, registered object code is %d", objectCode)
+	}
+	if castedMapObjectCode, ok := mapObjectCode.(float64); !ok || uint32(castedMapObjectCode) != objectCode {
+		return ierrors.Errorf("map type key (%v) not equal registered object code (%d)", mapObjectCode, objectCode)
+	}
+
+	return nil
+}
+
 func (api *API) mapDecodeStruct(ctx context.Context, mapVal any, value reflect.Value,
 	valueType reflect.Type, ts TypeSettings, opts *options) error {
 	if valueType == timeType {
@@ -496,6 +517,9 @@ func (api *API) mapDecodeSlice(ctx context.Context, mapVal any, value reflect.Va
 			m, isMap := mapVal.(map[string]any)
 			if ts.ObjectType() == nil || !isMap {
 				return ierrors.Errorf("non string value in map when decoding a byte slice, got %T instead", mapVal)
+			}
+			if err := checkMapObjectCode(m, ts.ObjectType()); err != nil {
+				return ierrors.Wrap(err, "failed to read byte slice from map")
 			}
 			fieldKey := keyDefaultSliceArray
 			if ts.fieldKey != nil {
